@@ -270,9 +270,175 @@ pub fn process_round(ci: &CleanImage, nprocs: usize, attempts: u64, seed: u64, s
     Ok(res)
 }
 
+/// A live, WRITING owner. Its caller thread and its worker are stepped through their file-system calls by
+/// the gate; at every point where they are parked - in particular between the creation of a new chunk file
+/// and the write of its head record, and between a write and its sync - a RaftLog::open and a Dump::new are
+/// attempted from this thread. Both must be refused and must leave every chunk file byte-identical.
+pub fn writer_round(seed: u64, stats: &mut C13Stats) -> Result<Option<Viol>, String> {
+    use crate::store::{Op, Store};
+    use crate::trace::{self, Role, Sk};
+    let dir = util::fresh_dir("c13w");
+    let mut r = Rng::new(seed);
+    let cfg = CfgSpec { max_records: Some(*r.pick(&[2usize, 3, 4])), read_buf: Some(64), ..Default::default() };
+    let nops = r.range(8, 16);
+    trace::reset_acks();
+    trace::begin(&dir);
+    trace::gate_enable(Role::Aux.bit() | Role::Worker.bit(), Sk::Write.bit() | Sk::Sync.bit() | Sk::Unlink.bit());
+    let done = Arc::new(AtomicBool::new(false));
+    let owner_err: Arc<std::sync::Mutex<Option<String>>> = Arc::new(std::sync::Mutex::new(None));
+    let (d2, e2, dir2, cfg2) = (done.clone(), owner_err.clone(), dir.clone(), cfg.clone());
+    let owner = std::thread::Builder::new()
+        .name("rlmon_aux_owner".into())
+        .spawn(move || {
+            let mut r = Rng::new(seed ^ 0x77);
+            match Store::open(&dir2, &cfg2, 1) {
+                Ok(mut st) => {
+                    for i in 0..nops {
+                        let o = st.write(&Op::Append(vec![((1, i), format!("owner-{}", i))]));
+                        if !o.is_ok() {
+                            *e2.lock().unwrap() = Some(format!("owner append failed: {}", o.brief()));
+                            break;
+                        }
+                        if r.chance(1, 3) {
+                            let _ = st.flush(false);
+                        }
+                        if i == nops / 2 {
+                            let _ = st.write(&Op::Purge((1, i / 2)));
+                            let _ = st.flush(false);
+                        }
+                    }
+                    let _ = st.flush(false);
+                    st.close();
+                }
+                Err(o) => *e2.lock().unwrap() = Some(format!("owner open failed: {}", o.brief())),
+            }
+            d2.store(true, Ordering::SeqCst);
+        })
+        .map_err(|e| e.to_string())?;
+    let replay = json!({"kind": "c13", "mode": "writer", "seed": seed.to_string()});
+    let mut res: Option<Viol> = None;
+    let t0 = util::now_s();
+    let mut parked_points = 0u64;
+    while !done.load(Ordering::SeqCst) {
+        if util::now_s() - t0 > 20.0 {
+            trace::gate_disable();
+            let _ = owner.join();
+            let _ = trace::end();
+            util::remove_dir(&dir);
+            return Err("writer round did not finish".into());
+        }
+        let lanes = trace::gate_all_lanes();
+        let waiting: Vec<(i32, crate::trace::Point)> = lanes.iter().filter_map(|(t, w, _)| w.clone().map(|p| (*t, p))).collect();
+        if waiting.is_empty() {
+            std::thread::yield_now();
+            continue;
+        }
+        parked_points += 1;
+        if res.is_none() {
+            // Attribution by thread: whatever this (contender) thread does to a chunk file is recorded in the
+            // trace under its tid, independent of what the owner's threads are doing meanwhile.
+            let me = trace::current_tid();
+            let ev0 = trace::ev_count();
+            // byte comparison is only meaningful when every owner thread is parked
+            let all_parked = lanes.iter().all(|(_, w, _)| w.is_some());
+            let before = if all_parked { Some(store::read_image(&dir)) } else { None };
+            for as_dump in [false, true] {
+                stats.attempts += 1;
+                match attempt(&dir, &cfg, as_dump) {
+                    Ok(Err(_)) => stats.refusals += 1,
+                    Ok(Ok(_)) => {
+                        res = Some(v("two_owners", format!("a {} was opened while a live RaftLog owned and was writing the directory (owner parked at {:?})", if as_dump { "Dump" } else { "second RaftLog" }, waiting[0].1.kind), replay.clone()));
+                    }
+                    Err(p) => res = Some(v("panic_in_open", p, replay.clone())),
+                }
+            }
+            let mine: Vec<String> = {
+                let g = trace::lock();
+                g.as_ref().map(|t| t.evs.iter().skip(ev0).filter(|e| e.tid == me && e.k.mutates()).map(|e| e.k.short()).collect()).unwrap_or_default()
+            };
+            stats.image_checks += 1;
+            if !mine.is_empty() && res.is_none() {
+                res = Some(v(
+                    "refused_attempt_modified_chunk_files",
+                    format!("a refused attempt to open the directory of a live, writing owner (parked at its {:?} call) performed {:?} on the owner's chunk files", waiting[0].1.kind, mine),
+                    replay.clone(),
+                ));
+            }
+            if let Some(b) = before {
+                let after = store::read_image(&dir);
+                if after != b && res.is_none() {
+                    res = Some(v("refused_attempt_modified_chunk_files", "chunk files differ before/after refused attempts while all owner threads were parked".into(), replay.clone()));
+                }
+            }
+        }
+        for (t, _) in &waiting {
+            trace::gate_grant(*t, 1);
+        }
+    }
+    trace::gate_disable();
+    let _ = owner.join();
+    let _ = trace::end();
+    stats.acquisitions += 1;
+    if let Some(e) = owner_err.lock().unwrap().take() {
+        if res.is_none() {
+            res = Some(v("owner_disturbed", format!("the owner failed while others attempted to open its directory: {}", e), replay.clone()));
+        }
+    }
+    if res.is_none() {
+        match attempt(&dir, &cfg, false) {
+            Ok(Ok(_)) => {}
+            Ok(Err(e)) => res = Some(v("final_open_refused", format!("owner gone, open fails: {}", e), replay.clone())),
+            Err(p) => res = Some(v("panic_in_open", p, replay)),
+        }
+    }
+    util::remove_dir(&dir);
+    let _ = parked_points;
+    Ok(res)
+}
+
 pub fn run_shard(ctx: &mut Ctx) {
     let mut r = Rng::new(ctx.shard_seed());
     let mut stats = C13Stats::default();
+    // (a) a writing owner stepped through its file-system calls, contenders at every parked point
+    let n_writer = if ctx.tier == Tier::Quick { 6 } else { 60 };
+    for _ in 0..n_writer {
+        if !ctx.time_left() {
+            break;
+        }
+        let before = stats.refusals;
+        match writer_round(r.next(), &mut stats) {
+            Ok(Some(vi)) => ctx.out.viol(vi),
+            Ok(None) => {}
+            Err(e) => ctx.out.inconclusive.push(e),
+        }
+        ctx.out.count("writer_rounds", 1);
+        ctx.out.count("attempts_against_a_parked_writing_owner", stats.refusals - before);
+    }
+    // (b) hand-over while the previous owner is still being dropped (its worker parked with queued work)
+    let n_handover = if ctx.tier == Tier::Quick { 10 } else { 100 };
+    for i in 0..n_handover {
+        if !ctx.time_left() {
+            break;
+        }
+        let mut case = crate::props::c14::gen_case(r.next(), 5_000_000 + i);
+        case.probe = true;
+        case.hold_ms = 50;
+        match crate::props::c14::run_one(&case) {
+            Ok((s, vi)) => {
+                ctx.out.count("open_attempts_refused_while_previous_owner_was_being_dropped", s.probes_refused_during_drop);
+                if let Some(vi) = vi {
+                    if vi.sig.contains("directory_handed_over_before_worker_quiesced") {
+                        ctx.out.viol(Viol { prop: "C13".into(), sig: "C13:second_owner_while_previous_instance_worker_alive".into(), text: vi.text, replay: vi.replay });
+                    } else {
+                        ctx.out.viol(vi);
+                    }
+                }
+            }
+            Err(crate::props::sched::RunErr::Viol(vi)) => ctx.out.viol(vi),
+            Err(crate::props::sched::RunErr::Inconclusive(e)) => ctx.out.inconclusive.push(e),
+        }
+        ctx.out.count("handover_rounds", 1);
+    }
     let rounds = if ctx.tier == Tier::Quick { 2 } else { u64::MAX };
     let mut k = 0;
     while k < rounds && ctx.time_left() {
